@@ -10,6 +10,7 @@ import collections
 
 EPS = 1e-8
 LATE = 5.0  # liveness bound in virtual seconds (generous multiple of the 0.1 s poll)
+LATE_IDLE = 0.5  # wait_until_idle(): bound on the delay between the bus becoming idle and the return (5 polls)
 
 
 from .facts import Act, Await, Facts  # noqa: F401
@@ -665,8 +666,11 @@ def c15(F: Facts):
                 for p in lst:
                     if p[1] is not None and p[1] < e:
                         tq = max(tq, p[5])
-        if te - tq > LATE:
-            out.append(V('C15', 'late_return', (bus, actor), idle_since=tq, returned=te))
+        # the call polls: the run loop raises the idle flag at most one 0.1 s poll after the last activity, the caller
+        # needs a few more callbacks; loop stalls and CPU-hogging handlers (injected) delay everybody by their length
+        slack = F.burn_total + sum(x[1] for x in (F.sc.get('faults', {}).get('stalls') or ()))
+        if te - tq > LATE_IDLE + slack:
+            out.append(V('C15', 'late_return', (bus, actor), idle_since=tq, returned=te, slack=slack))
     hv = hang_violations(F, 'C15')
     for v in hv:
         if any(w[0] == 'wait_idle' for w in v['detail']['waiting']):
